@@ -13,8 +13,9 @@
    paragraphs, multi-line values, duplicate names, any blank-line layout, optional final newline),
    every indentation of at least one column or FieldNameLength, either empty-first-line setting,
    every one-line limit, every pair of comparators that depend only on names and values. *)
-From V.model Require Import Base Deb822Lex Deb822Parse Grammar Lossy LossySpec Deb822Edit LiveDoc Deb822Wrap WrapSpec.
-From V.proofs Require Import LiveDocP Deb822WrapP Deb822WrapInstP.
+From V.model Require Import Base Deb822Lex Deb822Parse Grammar Lossy LossySpec Deb822Edit LiveDoc Deb822Wrap WrapSpec ControlSpec.
+From V.model Require RelAcc RelGrammar RelWrap RelWrapSpec.
+From V.proofs Require Import LiveDocP Deb822WrapP Deb822WrapInstP ControlWrapP.
 
 (* ---------------------------------------------------------------- the property *)
 (* 1. All clauses, for the repaired code, without a formatter (C07_full is in WrapSpec.v). *)
@@ -329,6 +330,79 @@ Check C07_control_unparsable_relation_panics :
   control_ws fixed (fun _ => Panic 20) (Spaces 1) false None (tree_of WC.d_bad_relation) = Panic 20.
 Print Assumptions C07_control_unparsable_relation_panics.
 
+(* 9. The control-file wrappers with the REAL relations branch (no parameter): format_field with
+      C13's model of parse_relaxed(v, true) + Relations::wrap_and_sort + to_string in it
+      (ControlSpec.real_format_field), on every control file whose relationship fields (the twelve
+      names) hold a well-formed relationship field of C10's grammar in C13's safe domain and whose
+      Uploaders fields have no empty piece (ControlSpec.ctl_doc_ok); every other field is arbitrary.
+      Control::wrap_and_sort: no panic; the tree of the described layout (paragraphs in control
+      order, stably; comment lines in front of the same field / paragraph); every field reports its
+      name with the formatter's output (the canonical single-line relation text of C13, the Uploaders
+      pieces one per line, otherwise the value it had); the printed result parses strictly and
+      re-reads to that; indentation; one blank line between paragraphs; a second application returns
+      the same tree (C13_idem inside: the relations formatter maps its own output, behind any blanks
+      or line breaks, to itself). *)
+Theorem C07_control_real : forall c d, ind_ok c = true -> wf_doc d = true -> ctl_doc_ok (lift d) ->
+  let l1 := a_ws_doc (Some control_cmp) (a_ws_items c None (Some ctl_total)) (lift d) in
+  real_control_ws c (tree_of d) = Ok (ltree_of l1) /\
+  doc_items (ltree_of l1) = map (fun its => map (a_pair (Some ctl_total)) (fields_of its))
+                                (sort_by (on_items control_cmp) (paras_of (lift d))) /\
+  (exists t', from_str (text (ltree_of l1)) = Ok t' /\ doc_items t' = doc_items (ltree_of l1)) /\
+  doc_indented c l1 = true /\ single_blanks SepStart l1 = true /\
+  real_control_ws c (ltree_of l1) = Ok (ltree_of l1).
+Proof. exact real_control_proof. Qed.
+Check C07_control_real : forall c d, ind_ok c = true -> wf_doc d = true -> ctl_doc_ok (lift d) ->
+  let l1 := a_ws_doc (Some control_cmp) (a_ws_items c None (Some ctl_total)) (lift d) in
+  real_control_ws c (tree_of d) = Ok (ltree_of l1) /\
+  doc_items (ltree_of l1) = map (fun its => map (a_pair (Some ctl_total)) (fields_of its))
+                                (sort_by (on_items control_cmp) (paras_of (lift d))) /\
+  (exists t', from_str (text (ltree_of l1)) = Ok t' /\ doc_items t' = doc_items (ltree_of l1)) /\
+  doc_indented c l1 = true /\ single_blanks SepStart l1 = true /\
+  real_control_ws c (ltree_of l1) = Ok (ltree_of l1).
+Print Assumptions C07_control_real.
+
+(* Source::wrap_and_sort / Binary::wrap_and_sort (ControlSpec.real_control_para_ws = Paragraph::
+   wrap_and_sort without a field sort, with format_field): on every well-formed paragraph of such
+   a control file -- fields and comment lines in any order --: no panic; the paragraph of
+   a_ws_items (fields in their order, comment lines in front of the same field); every field
+   reports its name with the formatter's output; well-formed; indented; a second application
+   returns the same paragraph. *)
+Theorem C07_source_binary : forall c its more, ind_ok c = true -> wf_items its more = true -> ctl_items_ok its ->
+  let its1 := a_ws_items c None (Some ctl_total) its in
+  real_control_para_ws c (lblock_tree (LPara its)) = Ok (lblock_tree (LPara its1)) /\
+  flat_map item_pairs its1 = map (a_pair (Some ctl_total)) (fields_of its) /\
+  wf_items its1 more = true /\ items_indented c its1 = true /\
+  real_control_para_ws c (lblock_tree (LPara its1)) = Ok (lblock_tree (LPara its1)).
+Proof. exact real_para_proof. Qed.
+Check C07_source_binary : forall c its more, ind_ok c = true -> wf_items its more = true -> ctl_items_ok its ->
+  let its1 := a_ws_items c None (Some ctl_total) its in
+  real_control_para_ws c (lblock_tree (LPara its)) = Ok (lblock_tree (LPara its1)) /\
+  flat_map item_pairs its1 = map (a_pair (Some ctl_total)) (fields_of its) /\
+  wf_items its1 more = true /\ items_indented c its1 = true /\
+  real_control_para_ws c (lblock_tree (LPara its1)) = Ok (lblock_tree (LPara its1)).
+Print Assumptions C07_source_binary.
+
+(* what the formatter does to one field of such a file: it answers (no panic), its output is shaped
+   (the relation text is ONE line without CR and without a blank in front), and it answers the
+   same on the re-laid-out field *)
+Theorem C07_control_field : forall c f m, ind_ok c = true -> wf_field f m = true -> ctl_field_ok f -> field_facts c f.
+Proof. exact ctl_field_facts. Qed.
+Check C07_control_field : forall c f m, ind_ok c = true -> wf_field f m = true -> ctl_field_ok f -> field_facts c f.
+Print Assumptions C07_control_field.
+
+Theorem C07_relation_formatter : forall rf, RelGrammar.wf_rfield true rf = true -> RelWrapSpec.field_safe rf = true ->
+  let o := text (RelWrapGrammarP.ws_tree rf) in
+  real_rel (RelGrammar.rrender rf) = Ok o /\
+  (forall lead, forallb lead_char lead = true -> real_rel (lead ++ o) = Ok o) /\
+  no_eol o = true /\ match o with [] => True | ch :: _ => is_indent ch = false end.
+Proof. exact real_rel_field. Qed.
+Check C07_relation_formatter : forall rf, RelGrammar.wf_rfield true rf = true -> RelWrapSpec.field_safe rf = true ->
+  let o := text (RelWrapGrammarP.ws_tree rf) in
+  real_rel (RelGrammar.rrender rf) = Ok o /\
+  (forall lead, forallb lead_char lead = true -> real_rel (lead ++ o) = Ok o) /\
+  no_eol o = true /\ match o with [] => True | ch :: _ => is_indent ch = false end.
+Print Assumptions C07_relation_formatter.
+
 (* ---------------------------------------------------------------- non-vacuity *)
 Module Examples.
   Import Coq.Strings.String.
@@ -412,4 +486,56 @@ A: 1
     fmt_shaped_on (Some (fun _ v => fmt_uploaders v)) upl = true /\
     a_pair (Some (fun _ v => fmt_uploaders v)) upl = (s "Uploaders", (s "A <a@x>," ++ 10%N :: s "B: <b@x>")%list).
   Proof. vm_compute. split; reflexivity. Qed.
+
+  (* a control file in the domain of C07_control_real: relationship fields over several lines, with a
+     version, alternatives and a substitution variable; Uploaders; comments; paragraphs out of order *)
+  Definition rl (n tr : string) : RelGrammar.rel := RelGrammar.mk_rel (s n) None None None [] (s tr).
+  Definition rf_bd : RelGrammar.rfield :=
+    RelGrammar.mk_rfield (s " ")
+      (RelGrammar.IEntry (RelGrammar.mk_rel (s "b") None (Some (RelGrammar.mk_vclause (s " ") [] RelAcc.VGe (s " ") None (s "1") [] [])) None [] []) [])
+      [([10%N], RelGrammar.IEntry (rl "a" "") [])].
+  Definition rf_dep : RelGrammar.rfield :=
+    RelGrammar.mk_rfield (s " ") (RelGrammar.ISubst (s "misc") [s "Depends"] [])
+      [(s " ", RelGrammar.IEntry (rl "z" " ") [(s " ", rl "y" "")])].
+  Definition f_bd := mk_field (s "Build-Depends") (s " ") (s "b (>= 1),") [(s "  ", s "a")] true.
+  Definition f_dep := mk_field (s "Depends") (s " ") (s "${misc:Depends}, z | y") [] true.
+  Definition f_upl := mk_field (s "Uploaders") (s " ") (s "A <a@x>, B: <b@x>") [] true.
+  Definition f_pkg := mk_field (s "Package") (s " ") (s "p") [] true.
+  Definition f_desc := mk_field (s "Description") (s " ") (s "x") [(s " ", s "y")] true.
+  Definition f_src := mk_field (s "Source") (s " ") (s "s") [] true.
+  Definition dc : doc :=
+    [BPara f_pkg [IComment (s " deps") true; IField f_dep; IField f_desc];
+     BBlank; BComment (s " the source") true;
+     BPara f_src [IField f_upl; IField f_bd]].
+
+  Example control_hypotheses : wf_doc dc = true /\ ctl_doc_ok (lift dc).
+  Proof.
+    split; [vm_compute; reflexivity|]. intros its Hin f Hf.
+    assert (Hf' : In f [f_pkg; f_dep; f_desc; f_src; f_upl; f_bd]).
+    { cbn in Hin. destruct Hin as [E|[E|[E|[E|[]]]]]; try discriminate; injection E as <-;
+        cbn in Hf; repeat (destruct Hf as [Hf|Hf]; [try discriminate; injection Hf as <-; cbn; tauto|]); contradiction. }
+    cbn in Hf'. destruct Hf' as [<-|[<-|[<-|[<-|[<-|[<-|[]]]]]]]; unfold ctl_field_ok.
+    - exact I.
+    - exists rf_dep. repeat split; vm_compute; reflexivity.
+    - exact I.
+    - exact I.
+    - vm_compute. reflexivity.
+    - exists rf_bd. repeat split; vm_compute; reflexivity.
+  Qed.
+
+  Example control_result :
+    rmap text (real_control_ws (mk_wcfg (Spaces 2) false None) (tree_of dc)) =
+    Ok (s "# the source
+Source: s
+Uploaders: A <a@x>,
+  B: <b@x>
+Build-Depends: a, b (>= 1)
+
+Package: p
+# deps
+Depends: y | z, ${misc:Depends}
+Description: x
+  y
+").
+  Proof. vm_compute. reflexivity. Qed.
 End Examples.
